@@ -171,7 +171,18 @@ func observe(c *stree.Cursor[int], r *ref, pos int, what string) *mc.Failure {
 	}
 	lo, hi := r.min(pos), r.max(pos)
 	var got []int
-	c.Inorder(func(k int) bool { got = append(got, k); return len(got) < 1<<16 }) // bounded: an iteration that never ends is reported, not accumulated
+	moved := -1
+	c.Inorder(func(k int) bool {
+		// Inorder is a listing, not a move: the cursor stays where it is while it runs
+		if moved < 0 && (!c.Valid() || c.Key() != pos) {
+			moved = k
+		}
+		got = append(got, k)
+		return len(got) < 1<<16 // bounded: an iteration that never ends is reported, not accumulated
+	})
+	if moved >= 0 {
+		return mc.Failf(0, "%s at key %d: while Inorder was visiting %d the cursor itself was no longer at %d", what, pos, moved, pos)
+	}
 	if len(got) != hi-lo+1 {
 		return mc.Failf(0, "%s at key %d: Inorder=%v want %d..%d", what, pos, got, lo, hi)
 	}
